@@ -135,6 +135,7 @@ package otto
 
 //@ func (Value).number
 //@   props C05 C08 C09
+//@   unfold numOf
 //@   requires jsValue(v)
 //@   pure_if v.kind != valueObject
 //@   throws v.kind == valueObject
